@@ -655,6 +655,29 @@ fn test_constructors_reject_layouts_that_overflow() {
 }
 
 #[test]
+fn test_try_from_data_with_strides_that_overflow() {
+    let sqrt_max = 1usize << (usize::BITS / 2);
+
+    // Element count and strides overflow.
+    let x = Tensor::<i32>::try_from_data(&[sqrt_max, sqrt_max], vec![]);
+    assert_eq!(x, Err(FromDataError::StorageLengthMismatch));
+    let x = Tensor::<i32>::try_from_data(&[2, sqrt_max, sqrt_max], vec![]);
+    assert_eq!(x, Err(FromDataError::StorageLengthMismatch));
+    let x = NdTensor::<i32, 3>::try_from_data([2, sqrt_max, sqrt_max], vec![]);
+    assert_eq!(x, Err(FromDataError::StorageLengthMismatch));
+    let x = NdTensor::<i32, 3>::try_from_data([1, sqrt_max, sqrt_max], vec![1]);
+    assert_eq!(x, Err(FromDataError::StorageLengthMismatch));
+
+    // Tensor is empty, but the strides overflow.
+    let x = Tensor::<i32>::try_from_data(&[0, sqrt_max, sqrt_max], vec![]).unwrap();
+    assert_eq!(x.shape(), &[0, sqrt_max, sqrt_max]);
+    assert_eq!(x.len(), 0);
+    let x = NdTensor::<i32, 3>::try_from_data([0, sqrt_max, sqrt_max], vec![]).unwrap();
+    assert_eq!(x.shape(), [0, sqrt_max, sqrt_max]);
+    assert_eq!(x.len(), 0);
+}
+
+#[test]
 #[should_panic(expected = "storage is too short for layout")]
 fn test_from_storage_and_layout_overflow() {
     let half_max = 1usize << (usize::BITS - 1);
